@@ -191,3 +191,13 @@ claim("C16",
       "trip, line/column values and rendering inside sourceannot are not decided.",
       "Trusted: rustc MIR. A bad span is a diagnosed assertion (C01 territory), never a wrong location.",
       "DESIGN.md §2 C16")
+claim("C11",
+      "call-graph reachability from the evaluator's error exit to thunk-state mutators; who-may-write/construct restricted to request-reachable code; paired interned-vs-absent walks",
+      "Decides three structural clauses of C11, not history-independence of values: (R1) the error exit of Evaluator::eval must pass a step that "
+      "can reset thunks left `in progress` (today it does not: recorded known finding with a library-API reproduction); the success exit "
+      "asserts all stacks empty; (R2) the Evaluator is constructed fresh per request from constants/new containers, and among all functions "
+      "reachable from a request only the collector bookkeeping and span registry fields of Program are written; (R3) at every get_interned site "
+      "(three evaluator arms and five builtins) a never-interned name yields exactly the possible outcomes of an interned-but-absent one, so "
+      "strings interned by earlier requests are unobservable.",
+      "Trusted: rustc MIR; the interner and arena are append-only. Order-independence of results in general is behavioural and not decided.",
+      "DESIGN.md §2 C11")
